@@ -217,6 +217,15 @@ class CFuture(B.NativeObj):
 
     def call(self, I, args, kwargs):
         ctx = I.ctx
+        timeout = args[0] if args else kwargs.get("timeout")
+        if timeout is not None and not (isinstance(timeout, SV) and z3.is_true(z3.simplify(Z.is_none(timeout.t)))):
+            # result(timeout=t) (assumed): may give up after t seconds with TimeoutError WHILE THE COROUTINE HAS NOT FINISHED (nothing of it has
+            # happened as far as the caller can rely on); an unbounded result() has no such outcome
+            if ctx.choose(2, "future.result-timeout") == 1:
+                ctx.emit("result-timed-out", self.loop)
+                raise PyRaise(I.make_exception(ExternalRef("TimeoutError"), []))
+        if set(kwargs) - {"timeout"} or len(args) > 1:
+            raise Unsupported("concurrent future: result() with unknown arguments")
         ctx.emit("on-loop-thread", self.loop)
         saved = ctx.ghost.get("here")
         ctx.ghost["here"] = ("loop", z3.simplify(self.loop.t).sexpr())
@@ -338,6 +347,13 @@ def threading_event(I, args, kwargs):
     return fresh_abstract(I, "threading.Event", isset=False)
 
 
+def threading_lock(I, args, kwargs):
+    """threading.Lock(): a new lock, not held (its acquire/release contracts are the assumed ones of the sidecar's Lock abstraction)"""
+    if "threading.Lock" not in I.E.shared_types:
+        raise Unsupported("external callable threading.Lock has no assumed contract")
+    return fresh_abstract(I, "threading.Lock", held=False)
+
+
 def math_isclose(I, args, kwargs):
     """math.isclose(a, b, *, rel_tol=1e-09, abs_tol=0.0) for finite numbers (its documented definition, over reals):
     abs(a-b) <= max(rel_tol * max(abs(a), abs(b)), abs_tol)"""
@@ -387,7 +403,7 @@ def trio_open_memory_channel(I, args, kwargs):
     size = ctx.to_val(args[0] if args else kwargs.get("max_buffer_size"))
     # the assumed contract of send / send_nowait (never blocks, never raises WouldBlock) is the UNBOUNDED channel's
     ctx.oblige("trio.open_memory_channel/requires[the-channel-is-unbounded-max_buffer_size-is-inf]", size.t == Z.POS_INF, kind="pre")
-    send = fresh_abstract(I, "trio.SendChannel", closed=False)
+    send = fresh_abstract(I, "trio.SendChannel", closed=False, clone_of=None)
     recv = fresh_abstract(I, "trio.ReceiveChannel")
     ctx.store_raw(ctx.ref_id(recv), "peer", send.t)
     ctx.emit("open_memory_channel", send, recv)
@@ -535,6 +551,6 @@ def install(E):
                         "threading.Thread": threading_thread, "asyncio.run_coroutine_threadsafe": run_coroutine_threadsafe, "trio.from_thread.run": trio_from_thread_run,
                         "asyncio.current_task": asyncio_current_task, "trio.sleep": trio_sleep, "str.__mod__": str_mod, "logging.getLogger": get_logger,
                         "threading.Semaphore": threading_semaphore, "threading.BoundedSemaphore": threading_semaphore, "threading.RLock": threading_semaphore,
-                        "math.isclose": math_isclose, "itertools.chain": itertools_chain, "inspect.unwrap": inspect_unwrap, "os.path.splitext": os_path_splitext, "trio.current_time": trio_current_time, "trio.sleep_until": trio_sleep_until,
+                        "math.isclose": math_isclose, "threading.Lock": threading_lock, "itertools.chain": itertools_chain, "inspect.unwrap": inspect_unwrap, "os.path.splitext": os_path_splitext, "trio.current_time": trio_current_time, "trio.sleep_until": trio_sleep_until,
                         "math.ceil": math_ceil_floor("ceil"), "math.floor": math_ceil_floor("floor"), "statistics.fmean": statistics_mean, "statistics.mean": statistics_mean,
                         "asyncio.run": asyncio_run, "asyncio.shield": asyncio_shield, "asyncio.gather": asyncio_gather})
